@@ -8,6 +8,7 @@ import numpy as np
 import common as C
 
 PID = "C12"
+DRIVER = [("C12", "TfPwaV.Model.WignerF", "WignerF.handle"), ("C12s", "TfPwaV.Gen.SU2F", "SU2F.handle")]
 LEAN_TARGETS = ["TfPwaV.Props.C12", "TfPwaV.Props.C12b", "TfPwaV.Gen.SU2F"]
 PROP_MODULES = ["TfPwaV.Props.C12", "TfPwaV.Props.C12b"]
 ALL_MODULES = ["TfPwaV.Model.Wigner", "TfPwaV.Proofs.Wigner", "TfPwaV.Proofs.WignerU7", "TfPwaV.Proofs.WignerU8",
